@@ -654,9 +654,13 @@ impl<'tcx> Interp<'tcx> {
                 Some((sb, ss, _)) => {
                     if let (Some(d0), Some(s0), Some(nn)) = (ds.is_const(), ss.is_const(), dl.is_const()) {
                         if nn <= 8192 {
+                            let src_tag = self.source_tag(st, &sb, s0, nn);
                             for i in 0..nn {
                                 let v = self.read_ptr(st, &sb.push(PElem::Index(s0 + i)));
                                 self.write_ptr(st, &db.push(PElem::Index(d0 + i)), v);
+                            }
+                            if let Some(t) = src_tag {
+                                self.tag_whole(st, &db, &ds, &dl, &t);
                             }
                             return one(Val::unit());
                         }
@@ -1138,6 +1142,9 @@ impl<'tcx> Interp<'tcx> {
             } else {
                 self.write_ptr(st, &b.push(PElem::IndexRange(s.lo, s.hi + l.hi - 1)), byte);
             }
+            if pos_lo == pos_hi {
+                self.tag_whole(st, &b, &s, &l, &format!("xof{}@{}+{}", id, pos_lo, l.short()));
+            }
             let mut d = BTreeMap::new();
             d.insert("id".to_string(), id.to_string());
             d.insert("kind".to_string(), kind.clone());
@@ -1179,6 +1186,9 @@ impl<'tcx> Interp<'tcx> {
                 for i in 0..nn.min(4096) {
                     self.write_ptr(&mut s_ok, &b.push(PElem::Index(s0 + i)), byte.clone());
                 }
+            }
+            if st.rng_count != u32::MAX {
+                self.tag_whole(&mut s_ok, &b, &s, &l, &format!("rng{}", st.rng_count));
             }
             // failure may leave the buffer partially written
             let mut s_err = st.clone();
@@ -1268,6 +1278,33 @@ impl<'tcx> Interp<'tcx> {
             }
             _ => None,
         }
+    }
+
+    /// mark the array at `b` as an exact copy of `tag` when [s, s+l) is the whole array
+    pub fn tag_whole(&mut self, st: &mut State, b: &Ptr, s: &IntV, l: &IntV, tag: &str) {
+        if let Val::Arr(arr) = self.read_ptr(st, b) {
+            if s.is_const() == Some(0) && l.is_const() == Some(arr.len as i128) && b.frame != STATICS {
+                let v = Val::Arr(arr).with_tag(tag);
+                st.refine_at(b, v);
+            }
+        }
+    }
+
+    /// provenance of the byte range [s0, s0+n) of the array at `sb`: its own tag when the range is the
+    /// whole tagged array, a range of a root input buffer (never written by the library) otherwise
+    pub fn source_tag(&self, st: &State, sb: &Ptr, s0: i128, n: i128) -> Option<String> {
+        if let Val::Arr(arr) = self.read_ptr(st, sb) {
+            if let Some(t) = &arr.tag {
+                if s0 == 0 && n == arr.len as i128 {
+                    return Some(t.to_string());
+                }
+                return Some(format!("{}[{}..{}]", t, s0, s0 + n));
+            }
+            if sb.frame == 0 {
+                return Some(format!("{}[{}..{}]", self.describe_ptr(sb), s0, s0 + n));
+            }
+        }
+        None
     }
 
     pub fn describe_ptr(&self, p: &Ptr) -> String {
